@@ -680,6 +680,7 @@ func runC04(c *run.Ctx) {
 	hist += c04Registered(c)
 	hist += c04MethodParams(c)
 	hist += c04SharedNestedVars(c)
+	hist += c04RegisteredLists(c)
 	// under reflection the "resolver" is a Go method: each parameter must receive the value the client wrote for ITS argument
 	// (order given by RegisterField, also when registered after a first request) - judged against the direct Go call
 	c02Methods(c)
